@@ -1,5 +1,5 @@
 import McpModel.Base.Proto
-import McpModel.Conn.Monitor
+import McpModel.Conn.Render
 /-!
 Driver for E1: replays the schedule recorded from the real `jsonrpc2.Connection` on the model, one
 atomic section per record, and compares the complete observable state after every step
@@ -8,8 +8,6 @@ The monitors for C01–C05 are evaluated on the implementation's observations (s
 -/
 namespace Conn
 open Proto
-
-def natList (l : List Nat) : String := ",".intercalate (l.map toString)
 
 def parseWho (t : String) : Option Who :=
   let num := (t.drop 1).toString.toNat?
@@ -24,24 +22,6 @@ def parseReq (t : String) : Option Nat :=
   if t.front = 'r' then (t.drop 1).toString.toNat? else none
 def parseCallNo (t : String) : Option Nat :=
   if t.front = 'c' then (t.drop 1).toString.toNat? else none
-
-def b (x : Bool) : String := if x then "1" else "0"
-
-def xStr (e : Nat × XCause) : String :=
-  match e.2 with
-  | .read => s!"r{e.1}:r" | .write => s!"r{e.1}:w" | .other => s!"r{e.1}:c"
-
-/-- The canonical text of an observation (the format the harness prints). -/
-def render (o : Obs) : String :=
-  s!"S={b o.closing}{b o.reading}{b o.readErr}{b o.writeErr}{b o.closerUsed}{b o.done} oc={natList o.oc} on={o.on} in={o.inc} by={natList o.by_} q={natList o.q} hr={b o.hr} tc={o.tc} od={o.od} P={",".intercalate (o.parked.map ptokStr)} X={",".intercalate (o.x.map xStr)} F={",".intercalate (o.fins.map ftokStr ++ [s!"close:{o.closeFin}", s!"wait:{o.waitFin}"])}"
-
-/-- The model's observation as text: `render (obsOf s)` for every state that has not panicked
-(and no reachable state has: `no_panic_state`). -/
-def observe (s : St) : String :=
-  if s.panicked then "panic" else render (obsOf s)
-
-theorem observe_eq_render (s : St) (h : s.panicked = false) : observe s = render (obsOf s) := by
-  simp [observe, h]
 
 def parseLabel (toks : List String) : Option Label :=
   match toks with
